@@ -156,6 +156,9 @@ func RunOne(seed uint64, explicit []uint64, build Build, wantTrace, wantTape boo
 			f()
 		}()
 	}
+	if simrt.SlotsExhausted() {
+		simrt.Report("harness:task-slots", fmt.Sprintf("the library had more than %d goroutines alive at once: beyond what the simulator schedules", simrt.MaxTasks))
+	}
 	st := simrt.RunStats()
 	res := Result{
 		Seed: seed, Hash: simrt.TraceHash(), Steps: st.Steps, Switches: st.Switches,
@@ -424,3 +427,24 @@ func (r *Rand) Bytes(n int) []byte {
 	return b
 }
 func (r *Rand) Fill(b []byte) { copy(b, r.Bytes(len(b))) }
+
+// Op marks the beginning of one operation of a world task: it resets the
+// non-termination detector and lets a seed-chosen amount of virtual time pass
+// (mostly none; milliseconds to weeks otherwise - what a library that keeps
+// time-stamped state would meet between two calls). Sequential worlds keep
+// their total order around the switch.
+func Op() {
+	simrt.Progress()
+	d := simrt.OpTimeDraw()
+	if d == 0 || simrt.Dead() {
+		return
+	}
+	simrt.CountTimePassed()
+	if simrt.ForcedRunToBlock() {
+		HB()
+		simrt.Sleep(d)
+		HB()
+		return
+	}
+	simrt.Sleep(d)
+}
